@@ -23,7 +23,7 @@ GEN = ['RotMat']
 RULE = ('each case = a rig forest (0..4 rigs, 1..4 members each, members sensors or rigs, nesting <= 3 in quick / <= 11 in thorough, '
         'each device on at most one rig; rigs declared bottom-up, top-down or shuffled; plus masts of depth 2..4 (thorough: ..10) declared both ways) and a trajectory over 0..4 timestamps where at each timestamp a set of roots (top rigs, '
         'nested rigs, members, free sensors) none below another is posed; with probability 0.4 the Rigs object has a history (another geometry, used for a removal and a recovery, then edited through the nested dict access); op = remove, or recover of a removed trajectory with '
-        'masters None or one posed member per rig; distinct non-trivial = distinct cases with at least one rig entry')
+        'masters None, one listed member per rig, or two listed members per rig of which at least one is posed at every timestamp; distinct non-trivial = distinct cases with at least one rig entry')
 ASSUMPTIONS = [
     'dict overwrite under conflicting sources is excluded by the quantifier (no device posed from two sources at one timestamp); '
     'under it the trajectories dict is the model\'s entry list up to order',
@@ -130,8 +130,8 @@ def gen_case(rng, tier):
             for r in roots:
                 if (ts, r) not in have and rng.random() < 0.8:
                     traj.append([ts, r, rnd_pose(rng)])
-        if rng.random() < 0.4:
-            masters = 'first'
+        if rng.random() < 0.5:
+            masters = rng.choice(['first', 'two'])
     if rng.random() < 0.3:
         # a slowly moving platform sampled at high rate: consecutive poses of one device differ by far less than any
         # tolerance-based pose equality (1e-5 on translation, 1e-2 on quaternion components) would notice, in small or
@@ -233,11 +233,19 @@ def dump_rigs(rigs):
 def masters_of(case, removed):
     if case['masters'] is None:
         return None
-    # one posed member per rig and timestamp: the first sensor member of every rig
+    # one posed member per rig and timestamp: the first member of every rig; 'two': the first TWO members of every rig are
+    # listed (a stereo pair, either camera may be the one that was localised at a given timestamp)
     out = []
     for r, ms in case['rigs']:
         out.append(ms[0][0])
+        if case['masters'] == 'two' and len(ms) > 1:
+            out.append(ms[1][0])
     return out
+
+
+def master_groups(case):
+    """ rig -> its listed masters """
+    return {r: [m for m, _ in ms[:2 if case['masters'] == 'two' else 1]] for r, ms in case['rigs']}
 
 
 def run_real(case):
@@ -264,9 +272,17 @@ def run_real(case):
                 import random as _random
                 drng = _random.Random(case['sparse'])
                 member_ids = {m for _, ms in case['rigs'] for m, _ in ms}
+                groups = master_groups(case) if masters else {}
+                rig_of = {m: r for r, ms in groups.items() for m in ms}
                 for ts, d, _ in dump(removed):
-                    if d in member_ids and d not in (masters or []) and drng.random() < 0.35:
-                        del removed[ts, d]
+                    if d not in member_ids or drng.random() >= 0.35:
+                        continue
+                    if d in (masters or []):
+                        # a listed master may be missing at a timestamp as long as another listed master of its rig is posed
+                        others = [m for m in groups[rig_of[d]] if m != d and (ts, m) in removed]
+                        if not others:
+                            continue
+                    del removed[ts, d]
             before = dump(removed)
             res['kept'] = before
             if case['inplace']:
